@@ -26,6 +26,9 @@ def _chunks(tier):
                  frozenset({("b", "a"), ("c", "a")}), frozenset({("a", "b"), ("a", "c")})]
         for ri in range(len(S.RET_FORMS)):
             units.append((("a", "b", "c"), ["none", "&'x self on Op"], ALL_PARAMS, 1, ri, chain))
+        # static methods of `impl<'y> OpL<'y>` taking `&'x Self` next to one more parameter (Self in a non-receiver position)
+        for ri in range(len(S.RET_FORMS)):
+            units.append((("a", "b"), ["static on OpL<'y>"], ["&'x Self", "&'x Op", "SB<'x>", "&'x [u8]", "&'x OpL<'y>"], 2, ri, None))
     else:
         for lts in (("a",), ("a", "b")):
             for ri in range(len(S.RET_FORMS)):
